@@ -38,6 +38,22 @@ let () =
       let adj u v = let u = int_of_nat u and v = int_of_nat v in u < n && v < n && a.(u).(v) in
       let g = { gn = nat_of_int n; gadj = adj } in
       let m = List.length (edges g) in
+      if level = 2 then begin
+        (* single planted graphs: only the proved model of dfsDsatur (no exponential oracle) *)
+        let zs l = ints (List.map int_of_z l) in
+        let show_col = function Some c -> zs c | None -> "nil" in
+        let chi, ds = match chromatic_number_dsatur g with
+          | Ok (chi, c) -> string_of_int (int_of_z chi), Printf.sprintf "%d:%s" (int_of_z chi) (show_col c)
+          | Panic -> "panic", "panic" | Fuel -> "fuel", "fuel" in
+        let k_res = List.init (n + 2) (fun k -> is_k_colorable g (z_of_int k)) in
+        let kc = String.concat "" (List.map (fun r -> match r with
+            | Ok (true, _) -> "1" | Ok (false, _) -> "0" | Panic -> "P" | Fuel -> "F") k_res) in
+        let dk = String.concat "/" (List.map (fun r -> match r with
+            | Ok (true, c) -> "1:" ^ show_col c
+            | Ok (false, c) -> "0:" ^ show_col c
+            | Panic -> "panic" | Fuel -> "fuel") k_res) in
+        Printf.printf "n=%d m=%d chi=%s kc=%s ## ds=%s dk=%s\n" n m chi kc ds dk
+      end else
       let toks = List.filter (fun s -> s <> "") (String.split_on_char ' ' tail) in
       let gr = ref [] and pr = Buffer.create 16 in
       List.iter (fun t ->
